@@ -143,6 +143,66 @@ structure GenCtx where
   conds : List (Nat × List Nat)    -- values that conditions compare a variable with
   maxLen : Nat := 4
 
+/-- a valid DateTime value -/
+def genDateTime (r : Rng) : Nat × Rng :=
+  let (y, r) := r.below 256
+  let (m, r) := r.below 12
+  let leap := (2000 + y) % 4 == 0 && ((2000 + y) % 100 != 0 || (2000 + y) % 400 == 0)
+  let dim := if m == 1 then (if leap then 29 else 28) else if m == 3 || m == 5 || m == 8 || m == 10 then 30 else 31
+  let (d, r) := r.below dim
+  let (h, r) := r.below 24
+  let (mi, r) := r.below 60
+  let w := weekdayFor y m d
+  (y * 16777216 + m * 1048576 + d * 16384 + w * 2048 + h * 64 + mi, r)
+
+def genB (l : BLeaf) (r : Rng) : Nat × Rng :=
+  match l with
+  | .u32 => let (c, r) := r.below 4; if c == 0 then (r.below 4294967296) else if c == 1 then (r.below 256) else if c == 2 then (4294967295, r) else (r.below 65536)
+  | .pg =>
+      let (x, r) := r.below (256 ^ 8)
+      let (m, r) := r.below 256
+      let bytes := (encLE 8 x).zipIdx.map fun (b, i) => if (m / 2 ^ i) % 2 == 1 then 0 else b
+      (decLE bytes, r)
+  | .bool32 => r.below 2
+  | .dt => genDateTime r
+
+def genBs : List BLeaf → Rng → List Val × Rng
+  | [], r => ([], r)
+  | l :: ls, r => let (n, r) := genB l r; let (vs, r) := genBs ls r; (.nat n :: vs, r)
+
+/-- sentinel-terminated elements: an id below the sentinel followed by the element's fields -/
+def genSent (ls : List BLeaf) : Nat → Rng → List Val × Rng
+  | 0, r => ([], r)
+  | k + 1, r =>
+      let (c, r) := r.below 3
+      let (id, r) := if c == 0 then (4294967294, r) else r.below 4294967295
+      let (fs, r) := genBs ls r
+      let (vs, r) := genSent ls k r
+      (.tuple (.nat id :: fs) :: vs, r)
+
+def genTuples (ls : List BLeaf) : Nat → Rng → List Val × Rng
+  | 0, r => ([], r)
+  | k + 1, r => let (fs, r) := genBs ls r; let (vs, r) := genTuples ls k r; (.tuple fs :: vs, r)
+
+def genPrim (ctx : GenCtx) (name : String) (r : Rng) : Option (Val × Rng) :=
+  match primKind name with
+  | .achDone => let (k, r) := r.below (ctx.maxLen + 1); let (vs, r) := genSent achDoneFields k r; some (.list vs, r)
+  | .achProg => let (k, r) := r.below (ctx.maxLen + 1); let (vs, r) := genSent achProgFields k r; some (.list vs, r)
+  | .splines =>
+      let (k, r) := r.below (ctx.maxLen + 2)
+      match k with
+      | 0 => some (.list [], r)
+      | k + 1 =>
+        let (p, r) := genBs [.u32, .u32, .u32] r
+        let (ps, r) := genTuples [.u32] k r
+        -- packed points are generated as whole units: the library's reader drops the quarter-unit bits of every component (known finding
+        -- C01/spline/packed-point-quarter-units-lost, demonstrated separately by checks/c01.py)
+        let ps := ps.map fun v => match v with
+          | .tuple [.nat n] => .tuple [.nat (n &&& 0xFF3FE7FC)]
+          | v => v
+        some (.list (.tuple p :: ps), r)
+  | .other => none
+
 def genLeaf (ctx : GenCtx) (id : Nat) (l : Leaf) (r : Rng) : Option (Val × Rng) :=
   let interesting := (ctx.conds.filter (·.1 == id)).flatMap (·.2)
   match l with
@@ -230,7 +290,7 @@ def genLeaf (ctx : GenCtx) (id : Nat) (l : Leaf) (r : Rng) : Option (Val × Rng)
       -- clear the bytes selected by m so that every mask shape occurs
       let bytes := (encLE 8 x).zipIdx.map fun (b, i) => if (m / 2 ^ i) % 2 == 1 then 0 else b
       some (.nat (decLE bytes), r)
-  | .prim _ => none
+  | .prim n => genPrim ctx n r
 
 mutual
 partial def genTy (ctx : GenCtx) (id : Nat) (t : Ty) (env : Env) (r : Rng) : Option (Val × Rng) :=
@@ -325,7 +385,7 @@ partial def firstPrim : Members → Option String
   | .nil => none
   | .cons m ms =>
     let rec tyPrim : Ty → Option String
-      | .leaf (.prim n) => some n
+      | .leaf (.prim n) => if primKind n == .other then some n else none     -- the other built-in kinds have a codec inside the semantics
       | .leaf _ => none
       | .struct ms => firstPrim ms
       | .arrFixed _ t => tyPrim t
